@@ -481,6 +481,8 @@ def _has_term(v, t) -> bool:
 
 
 def mk_join(sep, seq):
+    if seq[0] == "c" and isinstance(seq[1], (tuple, list)) and all(isinstance(x, str) for x in seq[1]):
+        seq = ("list", tuple(C(x) for x in seq[1]))
     if seq[0] == "list" and not any(i[0] in ("spread", "when") for i in seq[1]):
         parts = []
         for k, it in enumerate(seq[1]):
